@@ -76,25 +76,34 @@ inductive Entity
   | variant (m : Nat) (t : Nat) (k : Nat)
   deriving DecidableEq, Repr, Inhabited
 
-/-- the child of module `i` called `m<n>` -/
-def childIdx (p : Pkg) (i n : Nat) : Option Nat :=
-  (List.range p.mods.length).find? fun j =>
-    match p.mods[j]? with
-    | some m => m.parent == some i && m.name == n && j != 0
-    | none => false
-
 /-- the items module `i` declares -/
 def itemsOf (p : Pkg) (i : Nat) : List Ident :=
   match p.mods[i]? with
   | some m => m.items
   | none => []
 
-/-- **direct members** of module `i`: its child modules and the items it
-    declares. Its imports are not members. -/
+/-- the child modules of module `i`, by name -/
+def childrenOf (p : Pkg) (i : Nat) : List (Ident × Entity) :=
+  (List.range p.mods.length).filterMap fun j =>
+    match p.mods[j]? with
+    | some m => if m.parent == some i && j != 0 then some (.mod m.name, .module j) else none
+    | none => none
+
+/-- **the direct members** of module `i`: its child modules and the items it
+    declares. What the module imports is not among them. -/
+def moduleDecls (p : Pkg) (i : Nat) : List (Ident × Entity) :=
+  childrenOf p i ++ (itemsOf p i).filterMap fun x =>
+    match x with
+    | .fn _ | .const _ | .ty _ => some (x, .item i x)
+    | _ => none
+
 def member (p : Pkg) (i : Nat) (x : Ident) : Option Entity :=
-  match x with
-  | .mod n => (childIdx p i n).map .module
-  | .fn _ | .const _ | .ty _ => if (itemsOf p i).contains x then some (.item i x) else none
+  (moduleDecls p i).lookup x
+
+/-- the child of module `i` called `m<n>` -/
+def childIdx (p : Pkg) (i n : Nat) : Option Nat :=
+  match member p i (.mod n) with
+  | some (.module j) => some j
   | _ => none
 
 /-- later path segments: direct members of the item before them -/
@@ -266,5 +275,44 @@ def checkUse (p : Pkg) (u : Use) : Verdict :=
     match resolve p u.m blocks modTbl u.path with
     | some e => .ok e
     | none => .notInScope
+
+/-! ### the implementation's lookup order (tie to `ScopeGraph::resolve_name`)
+
+  `Generated/C07Facts.resolveNameSteps` lists what one iteration of the loop of
+  `resolve_name` consults, in source order. `runSteps` interprets such a list on
+  one scope: its declarations and its imports. -/
+
+/-- one scope as `resolve_name` sees it -/
+structure ScopeView where
+  decls : List (Ident × Entity)
+  imports : Table
+
+/-- one iteration: `some (some e)` found, `some none` the early exit (`return
+    None`), `none` go on with the parent scope -/
+def runSteps (sc : ScopeView) (x : Ident) (recurse : Bool) : List Nat → Option (Option Entity)
+  | [] => none
+  | 0 :: rest =>
+    match sc.decls.lookup x with
+    | some e => some (some e)
+    | none => runSteps sc x recurse rest
+  | 1 :: rest => if !recurse then some none else runSteps sc x recurse rest
+  | 2 :: 0 :: rest =>
+    match sc.imports.lookup x with
+    | some e => some (some e)
+    | none => runSteps sc x recurse rest
+  | 2 :: rest =>
+    match sc.imports.lookup x with
+    | some e => some (some e)
+    | none => runSteps sc x recurse rest
+  | 3 :: _ => none
+  | _ :: rest => runSteps sc x recurse rest
+
+/-- module `i` as a scope of the graph: declared are its members, imported what
+    its import table says -/
+def moduleView (p : Pkg) (i : Nat) : ScopeView := ⟨moduleDecls p i, moduleTable p i⟩
+
+/-- the package without any module-level import -/
+def eraseImports (p : Pkg) : Pkg :=
+  { p with mods := p.mods.map fun m => { m with imports := [] } }
 
 end RotoV.TcModules
